@@ -26,6 +26,7 @@ func (r *vReader) Read(p []byte) (int, error) {
 type vWriter struct {
 	out    []byte
 	failAt int
+	failed bool // a Write has returned an error
 }
 
 func (w *vWriter) Write(p []byte) (int, error) {
@@ -35,6 +36,7 @@ func (w *vWriter) Write(p []byte) (int, error) {
 			k = 0
 		}
 		w.out = append(w.out, p[:k]...)
+		w.failed = true
 		return k, io.ErrClosedPipe
 	}
 	w.out = append(w.out, p...)
